@@ -245,3 +245,25 @@ def rule_hash_after_accept(ctx, r):
         r.violation(con + "::hash-after-accept", "submit_backend never calls backend.submit", sb.where)
     else:
         r.ok(con + "::hash-after-accept", f"{len(outs)} path(s): update only after submit returned; a raising submit leaves the hash untouched", sb.where)
+
+
+
+def rule_store_load(ctx, r, which=("tracked jobs", "spec hashes")):
+    """What an earlier invocation saved is what the next one starts with: the initialiser loads the file into the table; no file = empty table."""
+    from .evalhelpers import eval_store_load
+    idx = ctx.index
+    for ckey, attr, label in STORES:
+        if label not in which:
+            continue
+        ci = idx.cls(ckey)
+        con = f"{ci.module.relpath}::{ci.qual}::load"
+        disk = {"A": "⟦V_A⟧", "B": "⟦V_B⟧"}
+        got = eval_store_load(ctx, ckey, attr, disk)
+        got_none = eval_store_load(ctx, ckey, attr, None)
+        if isinstance(got, str) and got.startswith("<Unsupported"):
+            r.info(con, f"initialiser not evaluated ({got})")
+            continue
+        r.check(got == disk and got_none == {}, con, f"the {label} table starts as the saved file's content (empty when there is no file yet)",
+                f"{label}: with {disk} saved by the previous invocation the store starts with {got} (and with {got_none} when no file exists): "
+                + ("jobs accepted earlier are forgotten and submitted again" if label == "tracked jobs" else "every target looks never recorded, so all targets are stale on every run"),
+                ci.where)
